@@ -69,6 +69,7 @@ const (
 	tsParked taskState = iota
 	tsRunning
 	tsLockWait
+	tsCondWait
 	tsDone
 )
 
@@ -82,6 +83,9 @@ type Task struct {
 	wantRW *sync.RWMutex
 	wantR  bool
 	s      *Sched
+	// cond-wait
+	waitCond  *sync.Cond
+	condWoken bool
 }
 
 //go:norace
@@ -223,6 +227,11 @@ func (s *Sched) candidates() (cands []*Task, live int) {
 			if free {
 				cands = append(cands, t)
 			}
+		case tsCondWait:
+			live++
+			if t.condWoken {
+				cands = append(cands, t)
+			}
 		case tsRunning:
 			live++
 		}
@@ -276,7 +285,7 @@ func (s *Sched) abort(by *Task) {
 	s.aborted = true
 	s.abortedBy = by
 	for _, t := range s.tasks {
-		if t != by && (t.state == tsParked || t.state == tsLockWait) {
+		if t != by && (t.state == tsParked || t.state == tsLockWait || t.state == tsCondWait) {
 			rawWrite(t.wfd)
 		}
 	}
@@ -468,6 +477,73 @@ func (s *Sched) TryRLock(m *sync.RWMutex) bool {
 	}
 	return true
 }
+
+// CondWait / CondSignal / CondBroadcast: see the bubble engine; here the waiters of a cond
+// are found by scanning the tasks (tasks run one at a time, nothing to lock).
+//
+//go:norace
+func (s *Sched) CondWait(c *sync.Cond) {
+	if s.aborted {
+		c.Wait()
+		return
+	}
+	t := s.cur
+	switch m := c.L.(type) {
+	case *sync.Mutex:
+		s.Unlock(m)
+	case *sync.RWMutex:
+		s.RWUnlock(m)
+	default:
+		c.L.Unlock()
+	}
+	t.state, t.waitCond, t.condWoken = tsCondWait, c, false
+	if !s.dispatch(t) {
+		s.block(t)
+	}
+	if s.aborted {
+		panic(&abortRun{"aborted"})
+	}
+	t.waitCond = nil
+	switch m := c.L.(type) {
+	case *sync.Mutex:
+		s.Lock(m)
+	case *sync.RWMutex:
+		s.RWLock(m)
+	default:
+		c.L.Lock()
+	}
+}
+
+//go:norace
+func (s *Sched) CondSignal(c *sync.Cond) {
+	if s.aborted || s.cur == nil {
+		return
+	}
+	for _, t := range s.tasks {
+		if t.state == tsCondWait && t.waitCond == c && !t.condWoken {
+			t.condWoken = true
+			return
+		}
+	}
+}
+
+//go:norace
+func (s *Sched) CondBroadcast(c *sync.Cond) {
+	if s.aborted || s.cur == nil {
+		return
+	}
+	for _, t := range s.tasks {
+		if t.state == tsCondWait && t.waitCond == c {
+			t.condWoken = true
+		}
+	}
+}
+
+// GoForeign: this engine's tables belong to the one task that is running; a goroutine
+// of the runtime cannot be taken in.
+//
+//go:norace
+func (s *Sched) GoForeign(f func()) bool { return false }
 
 //go:norace
 func (s *Sched) Go(f func()) {
